@@ -1,3 +1,5 @@
 -- Root of the `Drpc` library: model, lemmas, property theorems, tie lemmas.
 import Drpc.Props.C08
 import Drpc.Tie.C08
+import Drpc.Props.C09
+import Drpc.Tie.C09
